@@ -20,7 +20,17 @@ type comparison =
 
 val add : nat -> nat -> nat
 
+val mul : nat -> nat -> nat
+
+val sub : nat -> nat -> nat
+
+val eqb : nat -> nat -> bool
+
 val leb : nat -> nat -> bool
+
+val divmod : nat -> nat -> nat -> nat -> nat * nat
+
+val modulo : nat -> nat -> nat
 
 type positive =
 | XI of positive
@@ -110,6 +120,8 @@ module N :
 
   val double : n -> n
 
+  val succ_pos : n -> positive
+
   val add : n -> n -> n
 
   val sub : n -> n -> n
@@ -123,6 +135,8 @@ module N :
   val leb : n -> n -> bool
 
   val ltb : n -> n -> bool
+
+  val min : n -> n -> n
 
   val div2 : n -> n
 
@@ -151,6 +165,10 @@ module N :
   val of_nat : nat -> n
  end
 
+val hd : 'a1 -> 'a1 list -> 'a1
+
+val tl : 'a1 list -> 'a1 list
+
 val nth : nat -> 'a1 list -> 'a1 -> 'a1
 
 val nth_error : 'a1 list -> nat -> 'a1 option
@@ -159,15 +177,29 @@ val concat : 'a1 list list -> 'a1 list
 
 val map : ('a1 -> 'a2) -> 'a1 list -> 'a2 list
 
+val flat_map : ('a1 -> 'a2 list) -> 'a1 list -> 'a2 list
+
+val fold_left : ('a1 -> 'a2 -> 'a1) -> 'a2 list -> 'a1 -> 'a1
+
 val fold_right : ('a2 -> 'a1 -> 'a1) -> 'a1 -> 'a2 list -> 'a1
 
+val existsb : ('a1 -> bool) -> 'a1 list -> bool
+
+val forallb : ('a1 -> bool) -> 'a1 list -> bool
+
 val filter : ('a1 -> bool) -> 'a1 list -> 'a1 list
+
+val find : ('a1 -> bool) -> 'a1 list -> 'a1 option
+
+val combine : 'a1 list -> 'a2 list -> ('a1 * 'a2) list
 
 val firstn : nat -> 'a1 list -> 'a1 list
 
 val skipn : nat -> 'a1 list -> 'a1 list
 
 val seq : nat -> nat -> nat list
+
+val repeat : 'a1 -> nat -> 'a1 list
 
 type pclass =
 | PAssert
@@ -191,6 +223,8 @@ val assert_ok : bool -> unit outcome
 
 val nth_ok : 'a1 list -> nat -> 'a1 outcome
 
+val omapM : ('a1 -> 'a2 outcome) -> 'a1 list -> 'a2 list outcome
+
 type mode =
 | Release
 | Checked
@@ -201,7 +235,17 @@ val u8 : n -> n
 
 val u32 : n -> n
 
+val add_w : mode -> n -> n -> n -> n outcome
+
+val mul_w : mode -> n -> n -> n -> n outcome
+
+val sub_w : mode -> n -> n -> n -> n outcome
+
+val div_ok : n -> n -> n outcome
+
 val rem_ok : n -> n -> n outcome
+
+val ceil_div : n -> n -> n
 
 val rangeN : nat -> n list
 
@@ -214,6 +258,20 @@ val pLAN_CACHE_CAPACITY : n
 val mAX_TRANSFER_LENGTH : n
 
 val eSI_LIMIT : n
+
+val tUPLE_A_BASE : n
+
+val tUPLE_A_MUL : n
+
+val tUPLE_B_MUL : n
+
+val tUPLE_Y_MOD : n
+
+val tUPLE_V_RANGE : n
+
+val dEG_V_LIMIT : n
+
+val dEG_F : n list
 
 val pOLY : n
 
@@ -246,6 +304,14 @@ val oCT_LOG : n list
 val exp_at : n -> n outcome
 
 val log_at : n -> n outcome
+
+val expN : n -> n
+
+val logN : n -> n
+
+val mulN : n -> n -> n
+
+val divN : n -> n -> n
 
 val oct_add : n -> n -> n
 
@@ -358,6 +424,454 @@ val cache_trace_from : nat -> ((n * n) * n) list -> n sysstate -> n list list
 
 val cache_trace : nat -> ((n * n) * n) list -> n list list
 
+val vadd : n list -> n list -> n list
+
+val vzero : nat -> n list
+
+val vec_eqb : n list -> n list -> bool
+
+val map2 : ('a1 -> 'a2 -> 'a3) -> 'a1 list -> 'a2 list -> 'a3 list
+
+val vscale : (n -> n -> n) -> n -> n list -> n list
+
+val lincomb : (n -> n -> n) -> nat -> n list -> n list list -> n list
+
+val pick_row : n list list -> (n list * n list list) option
+
+val pick_rhs : n list list -> n list list -> n list * n list list
+
+val elim_coef : (n -> n -> n) -> (n -> n) -> n list -> n list -> n
+
+val elim_row : (n -> n -> n) -> (n -> n) -> n list -> n list -> n list
+
+val elim_rhs :
+  (n -> n -> n) -> (n -> n) -> n list -> n list -> n list -> n list -> n list
+
+val gauss_solve :
+  (n -> n -> n) -> (n -> n) -> nat -> nat -> n list list -> n list list -> n
+  list list option
+
+type cfg = { cF : n; cT : n; cZ : n; cN : n; cAl : n }
+
+val ceil : n -> n -> n
+
+val floor : n -> n -> n
+
+val partition : n -> n -> ((n * n) * n) * n
+
+val q1 : (((n * n) * n) * n) -> n
+
+val q2 : (((n * n) * n) * n) -> n
+
+val q3 : (((n * n) * n) * n) -> n
+
+val sumN : n list -> n
+
+val kt : cfg -> n
+
+val kL : cfg -> n
+
+val kS : cfg -> n
+
+val zL : cfg -> n
+
+val tL : cfg -> n
+
+val tS : cfg -> n
+
+val nL : cfg -> n
+
+val blk_K : cfg -> n -> n
+
+val blk_off : cfg -> n -> n
+
+val obj_byte : n list -> n -> n
+
+val blk_byte : cfg -> n list -> n -> n -> n
+
+val sub_len : cfg -> n -> n
+
+val sub_off : cfg -> n -> n -> n
+
+val sub_symbol : cfg -> n list -> n -> n -> n -> n list
+
+val symbol : cfg -> n list -> n -> n -> n list
+
+val source_packets_spec : cfg -> n list -> ((n * n) * n list) list
+
+val rFC_V0 : n list
+
+val rFC_V1 : n list
+
+val rFC_V2 : n list
+
+val rFC_V3 : n list
+
+val rFC_DEG_F : n list
+
+val rFC_TUPLE_A_BASE : n
+
+val rFC_TUPLE_A_MUL : n
+
+val rFC_TUPLE_B_MUL : n
+
+val rfc_v : n list -> n -> n
+
+val rand : n -> n -> n -> n
+
+val rfc_f : n -> n
+
+val deg_index : n -> n
+
+val deg : n -> n -> n
+
+val tuple_A : n -> n
+
+val tuple_B : n -> n
+
+val tuple_y : n -> n -> n
+
+val tuple : n -> n -> n -> n -> ((((n * n) * n) * n) * n) * n
+
+type cparams = { cK : n; cJ : n; cS : n; cH : n; cW : n; cP1 : n }
+
+val cL : cparams -> n
+
+val cP : cparams -> n
+
+val cB : cparams -> n
+
+val b2n : bool -> n
+
+val parity : n -> n
+
+val ldpc_count : cparams -> n -> n -> n
+
+val ldpc_entry : cparams -> n -> n -> n
+
+val alpha_pow : n -> n
+
+val mT : cparams -> n -> n -> n
+
+val gAMMA : n -> n -> n
+
+val g_HDPC : cparams -> n -> n -> n
+
+val hdpc_entry : cparams -> n -> n -> n
+
+val enc_lt : nat -> n -> n -> n -> n list
+
+val enc_skip : nat -> n -> n -> n -> n -> n
+
+val enc_pi : nat -> nat -> n -> n -> n -> n -> n -> n list
+
+val enc_indices : cparams -> (((((n * n) * n) * n) * n) * n) -> n list
+
+val tuple_of : cparams -> n -> ((((n * n) * n) * n) * n) * n
+
+val count_occ_N : n list -> n -> n
+
+val enc_entry : cparams -> n -> n -> n
+
+val a_entry : cparams -> n list -> n -> n -> n
+
+val a_rfc : cparams -> n list -> n list list
+
+val vxor : n list -> n list -> n list
+
+val enc :
+  cparams -> nat -> n list list -> (((((n * n) * n) * n) * n) * n) -> n list
+
+module PositiveMap :
+ sig
+  type key = positive
+
+  type 'a tree =
+  | Leaf
+  | Node of 'a tree * 'a option * 'a tree
+
+  type 'a t = 'a tree
+
+  val empty : 'a1 t
+
+  val find : key -> 'a1 t -> 'a1 option
+
+  val add : key -> 'a1 -> 'a1 t -> 'a1 t
+ end
+
+val fmul_key : n -> n -> positive
+
+val fmul_table : n PositiveMap.t
+
+val fmul : n -> n -> n
+
+val finv_table : n PositiveMap.t
+
+val finv : n -> n
+
+val tABLE2 : ((((n * n) * n) * n) * n) list
+
+val p1_TABLE : (n * n) list
+
+val r_k : ((((n * n) * n) * n) * n) -> n
+
+val r_j : ((((n * n) * n) * n) * n) -> n
+
+val r_s : ((((n * n) * n) * n) * n) -> n
+
+val r_h : ((((n * n) * n) * n) * n) -> n
+
+val r_w : ((((n * n) * n) * n) * n) -> n
+
+val scan_tab : ('a1 -> n) -> ('a1 -> n) -> n -> 'a1 list -> n outcome
+
+val lookup5 : (((((n * n) * n) * n) * n) -> n) -> n -> n outcome
+
+val extended_source_block_symbols : n -> n outcome
+
+val systematic_index : n -> n outcome
+
+val num_hdpc_symbols : n -> n outcome
+
+val num_ldpc_symbols : n -> n outcome
+
+val num_lt_symbols : n -> n outcome
+
+val num_intermediate_symbols : n -> n outcome
+
+val num_pi_symbols : n -> n outcome
+
+val calculate_p1 : n -> n outcome
+
+val v0 : n list
+
+val v1 : n list
+
+val v2 : n list
+
+val v3 : n list
+
+val rand_gen : bool -> mode -> n -> n -> n -> n outcome
+
+val deg_loop : mode -> n -> n -> nat -> n -> n outcome
+
+val deg0 : mode -> n -> n -> n outcome
+
+val intermediate_tuple_gen :
+  bool -> mode -> n -> n -> n -> n -> (((((n * n) * n) * n) * n) * n) outcome
+
+val lt_loop : mode -> nat -> n -> n -> n -> n list outcome
+
+val pi_skip : mode -> nat -> n -> n -> n -> n -> n outcome
+
+val pi_loop : mode -> nat -> nat -> n -> n -> n -> n -> n -> n list outcome
+
+val enc_indices0 :
+  mode -> (((((n * n) * n) * n) * n) * n) -> n -> n -> n -> n list outcome
+
+val zero_matrix : nat -> nat -> n list list
+
+val list_upd : 'a1 list -> nat -> ('a1 -> 'a1) -> 'a1 list outcome
+
+val list_put : 'a1 list -> nat -> 'a1 -> 'a1 list outcome
+
+val mset : n list list -> n -> n -> n -> n list list outcome
+
+val ofor : nat -> n -> (n -> 'a1 -> 'a1 outcome) -> 'a1 -> 'a1 outcome
+
+val ofold : ('a1 -> 'a2 -> 'a2 outcome) -> 'a1 list -> 'a2 -> 'a2 outcome
+
+val set_ldpc : n -> n -> n -> n -> n list list -> n list list outcome
+
+val set_enc :
+  mode -> n -> n -> n -> n -> n -> n list -> n list list -> n list list
+  outcome
+
+val hdpc_step : mode -> n -> n -> n list -> n list outcome
+
+val hdpc_cols :
+  mode -> n -> nat -> n -> n list -> n list list -> n list list outcome
+
+val transpose_cols : nat -> n list list -> n list list
+
+val generate_hdpc_rows : mode -> n -> n -> n -> n list list outcome
+
+type sysparams = { spK : n; spJ : n; spS : n; spH : n; spW : n; spP : 
+                   n; spP1 : n; spL : n }
+
+val sys_params : n -> sysparams outcome
+
+val generate_constraint_matrix :
+  mode -> n -> n list -> (n list list * n list list) outcome
+
+val generate_constraint_matrix_no_hdpc :
+  mode -> n -> n list -> n list list outcome
+
+val full_matrix : n -> n -> n list list -> n list list -> n list list
+
+val lenN : 'a1 list -> n
+
+val slice : n list -> n -> n -> n list outcome
+
+val slice_from0 : n list -> n -> n list outcome
+
+val write_slice : n list -> n -> n list -> n list outcome
+
+val enumerate_from : n -> 'a1 list -> (n * 'a1) list
+
+val int_div_ceil : n -> n -> n outcome
+
+val partition0 : n -> n -> (((n * n) * n) * n) outcome
+
+val push_blocks :
+  nat -> n -> (n -> unit outcome) -> n -> ((n * n) list * n) outcome
+
+val calculate_block_offsets : n -> n -> n -> n -> (n * n) list outcome
+
+val encoder_block : n list -> (n * n) -> n list outcome
+
+val extend_symbols :
+  n list -> n -> n list list -> n -> (n list list * n) outcome
+
+val sub_block_loop :
+  n list -> n -> n -> n -> n -> n list -> n list list -> n -> (n list
+  list * n) outcome
+
+val chunks : n -> n list -> n list list
+
+val create_symbols : cfg -> n list -> n list list outcome
+
+val payload_id_new : n -> n -> (n * n) outcome
+
+val source_packets : n -> n list list -> ((n * n) * n list) list outcome
+
+val encoder_new : cfg -> n list -> (n * n list list) list outcome
+
+val source_packets_of_object :
+  cfg -> n list -> ((n * n) * n list) list outcome
+
+val unpack_loop :
+  n -> n -> n -> n -> n -> n list -> n -> n list -> n list -> n -> n -> n
+  list outcome
+
+val unpack_sub_blocks : cfg -> n -> n list -> n list -> n -> n list outcome
+
+val unpack_all : cfg -> n -> (n * n list) list -> n list -> n list outcome
+
+val block_from_all_source : cfg -> n -> n list list -> n list outcome
+
+val reassemble : cfg -> n list list -> n list
+
+val map0 : ('a1 -> 'a2 -> 'a3) -> 'a1 list -> 'a2 list -> 'a3 list
+
+val bytes_add : n list -> n list -> n list
+
+val create_d : sysparams -> n list list -> nat -> n list list
+
+val gen_intermediate_symbols :
+  mode -> n list list -> nat -> n list list outcome
+
+type sb_encoder = { sbe_id : n; sbe_syms : n list list; sbe_C : n list list;
+                    sbe_T : nat }
+
+val sbe_new : mode -> n -> cfg -> n list -> sb_encoder outcome
+
+val enc_into :
+  mode -> n -> n list list -> (((((n * n) * n) * n) * n) * n) -> n list
+  outcome
+
+val sbe_source_packets : sb_encoder -> ((n * n) * n list) list outcome
+
+val sbe_repair_packets :
+  mode -> sb_encoder -> n -> n -> ((n * n) * n list) list outcome
+
+val encoder_new_full : mode -> cfg -> n list -> sb_encoder list outcome
+
+val get_encoded_packets :
+  mode -> sb_encoder list -> n -> ((n * n) * n list) list outcome
+
+type sb_decoder = { sbd_id : n; sbd_cfg : cfg; sbd_K : n;
+                    sbd_src : n list option list;
+                    sbd_rep : (n * n list) list; sbd_nsrc : n;
+                    sbd_esis : n list; sbd_decoded : bool }
+
+val sbd_new : n -> cfg -> n -> sb_decoder outcome
+
+val mem_N : n -> n list -> bool
+
+val sbd_add : mode -> sb_decoder -> ((n * n) * n list) -> sb_decoder outcome
+
+val present_sources : sb_decoder -> (n * n list) list
+
+val rebuild_source_symbol :
+  mode -> sysparams -> n list list -> n -> n list outcome
+
+val sbd_finish :
+  mode -> sb_decoder -> sysparams -> n list list -> n list outcome
+
+val check_len : nat -> n list -> n list outcome
+
+val sbd_try : mode -> sb_decoder -> (n list option * sb_decoder) outcome
+
+val sbd_decode :
+  mode -> sb_decoder -> ((n * n) * n list) list -> (n list
+  option * sb_decoder) outcome
+
+type decoder = { dec_cfg : cfg; dec_sbd : sb_decoder list;
+                 dec_blocks : n list option list }
+
+val dec_new : cfg -> decoder outcome
+
+val dec_result : decoder -> n list option
+
+val dec_add : mode -> decoder -> ((n * n) * n list) -> decoder outcome
+
+val dec_decode :
+  mode -> decoder -> ((n * n) * n list) -> (n list option * decoder) outcome
+
+val argn : n list -> nat -> n
+
+val cfg_of : n list -> cfg
+
+val flat_packets : ((n * n) * n list) list -> n list
+
+val enc1l : n list outcome -> n list
+
+val cfg_guard : mode -> cfg -> unit outcome
+
+val run_enc_packets : mode -> n list -> n list
+
+val run_repair_window : mode -> n list -> n list
+
+val triples3 : nat -> n list -> ((n * n) * n) list
+
+val packet_of :
+  mode -> sb_encoder list -> n -> n -> ((n * n) * n list) outcome
+
+val list_eqb : n list -> n list -> bool
+
+val flag_of : n list option -> n list option -> n * n list option
+
+val run_codec_hist : mode -> n list -> n list
+
+val take_batches : nat -> n list -> n list list * n list
+
+val run_sbd_hist : mode -> n list -> n list
+
+val run_intermediate : mode -> n list -> n list
+
+val spec_params : n -> cparams option
+
+val run_spec_block_packets : n list -> n list
+
+val run_layout_packets : mode -> n list -> n list
+
+val rotate : nat -> 'a1 list -> 'a1 list
+
+val run_layout_roundtrip : mode -> n list -> n list
+
+val run_spec_layout_packets : n list -> n list
+
 val pcode : pclass -> n
 
 val enc1 : n outcome -> n list
@@ -368,7 +882,7 @@ val arg : n list -> nat -> n
 
 val run_octet : n -> n list -> n list
 
-val b2n : bool -> n
+val b2n0 : bool -> n
 
 val enc_pid : (n * n) outcome -> n list
 
@@ -379,5 +893,7 @@ val enc_oti : oti outcome -> n list
 val triples : n list -> ((n * n) * n) list
 
 val run_wire : n -> n list -> n list
+
+val run_codec : n -> n list -> n list
 
 val run : n -> n list -> n list
